@@ -25,6 +25,22 @@ CLAIMED["C14"] = dict(
     technique="Lean 4 containment theorem over a model with explicit IndexError at every index; differential correspondence + implementation-side oracle on malformed-but-checksummed frames",
     note="Model covers Response.construct/validate, all response parsers, _send_command_get_responses and the five operations over a frame oracle.")
 
+CLAIMED["C13"] = dict(
+    text="Theorems (Lean 4, unbounded): any single-byte substitution after the start byte (header, body, check byte or checksum) of a checksum-valid frame is rejected by Frame.validate, for frames of every length; CRC-8 single-byte sensitivity from the generated table being a permutation (decide +kernel over 256 entries, regenerated from crc8.py each run); the EXACT acceptance set of a body substitution with recomputed outer checksum (accepted only through the other of the two algorithms, at most one substitute per position, none if both matched); if every frame of a refresh is rejected the device record is unchanged except online=supported=false. Tie: correspondence on ~160k corrupted frames per run (all positions x all 255 substitutes for frames of every kind, with and without fix-up) and refresh() fed only corrupted frames with to_dict() compared. The accepted substitutions explained by the theorem are listed as known findings (by mechanism, recomputed independently from the bytes); any other accepted corruption is a violation.",
+    design="DESIGN.md §6 C13",
+    technique="Lean 4 theorems (checksum/CRC algebra, state invariance) + exhaustive single-byte substitution sweep against the real decoder",
+    note="Known findings D6 (alt-check coincidence, properties-id exemption) are by-design behaviour of the dual check and are reported as KNOWN-FINDING.")
+CLAIMED["C10"] = dict(
+    text="Theorems (Lean 4): for EVERY settable state (power, beep, mode 0..7, all 62 half-degree setpoints 13.0..43.5, fan 0..255, swing 0..15, eco, turbo, sleep, Fahrenheit, freeze, follow-me, purifier, humidity 0..127, aux mode) the 0x40 body produced by the model of apply()+SetStateCommand.tobytes decodes under the vendor layout (Spec.decodeSetState, written from the Lua reference) to exactly that state; injectivity as a corollary; out-of-range fan raises instead of emitting. Proof by per-byte kernel-decided lemmas lifted structurally, not by enumerating the product. Tie: byte-exact correspondence of the real apply() (captured at the patched _send_command) with the model, and the Spec decoder applied to the real body, for all 62x8 setpoint x mode pairs, every fan byte, every flag combination, every humidity and swing value.",
+    design="DESIGN.md §6 C10",
+    technique="Lean 4 round-trip theorem model-encoder vs spec-decoder; differential correspondence with the real apply()",
+    note="Spec is the vendor layout as read from the Lua reference with the linear alternate-setpoint reading (DESIGN §6 C10).")
+CLAIMED["C11"] = dict(
+    text="Theorems (Lean 4): for EVERY status payload of >= 16 bytes StateResponse decodes and every field equals the vendor-layout meaning (Spec.reportedOf); optional trailing fields are none exactly when absent; temperatures: unknown iff 0xFF, within one degree of the coarse reading for digits 0..9 in both units, Celsius tenths exact (all by kernel evaluation over the full finite domain byte x nibble x unit); _update_state exposes the decoded values; a device-built frame in either check style around any status payload is decoded as that status (constructInner_respFrame, generic in the payload). Tie: real Response.construct + _update_state and real refresh() on device-built frames: all 256x10x2 per sensor, 32x32 setpoint codes, all 256 values of each flag byte, lengths 16..40, both check styles.",
+    design="DESIGN.md §6 C11",
+    technique="Lean 4 decode theorem against an independent spec of the 0xC0 body + kernel-exhaustive temperature lemmas; differential correspondence",
+    note="Floats are compared in exact tenths/hundredths with an exactness guard.")
+
 NOT_YET = {
 }
 
